@@ -288,7 +288,7 @@ class Interp:
             f.kind in ("guard", "loop") for f in self.frames[cc.__dict__.get("frames0", 0):])
 
     def st_Raise(self, s, cc):
-        kind = "Exception"
+        kind = getattr(self, "_handling", None) or "Exception"      # a bare `raise` inside a handler re-raises what was caught
         if s.exc is not None:
             e = s.exc
             if isinstance(e, ast.Call):
@@ -600,12 +600,17 @@ class Interp:
             certain = cc.done and not was_done and len(cc.returns) == nret0 and any(r[1] == entry_guards for r in caught)
             if h.name:
                 cc.env[h.name] = Term("exception", [Const(caught[0][0])])
-            if certain:
-                cc.done = False
-                self.exec_block(h.body, cc)
-            else:
-                self._guarded(CondV("opaque", "caught", Const(caught[0][0])), h.body, cc)
-                self._join_after_branches(cc)
+            prev_h = getattr(self, "_handling", None)
+            self._handling = caught[0][0]
+            try:
+                if certain:
+                    cc.done = False
+                    self.exec_block(h.body, cc)
+                else:
+                    self._guarded(CondV("opaque", "caught", Const(caught[0][0])), h.body, cc)
+                    self._join_after_branches(cc)
+            finally:
+                self._handling = prev_h
         if s.orelse and not caught_any:
             self.exec_block(s.orelse, cc)
         if s.finalbody:
